@@ -11,6 +11,20 @@ COMMON_TB = [
 NOT_CLAIMED_REASON = {}
 
 PROPS = {
+    "C09": {
+        "modules": ["AidlVerif.Props.C09"],
+        "theorems": ["Aidl.Props.C09.step_spec", "Aidl.Props.C09.ids_spec", "Aidl.Props.C09.holds"],
+        "suites": ["ids", "proj"],
+        "keys": {"corr": ["C09"], "spec": ["C09"], "assume": ["C09"], "outcome": True},
+        "trusted_base": COMMON_TB,
+        "assumptions": [
+            "hypothesis `Fresh` of Props.C09.holds (the Errors with related information on a method's name/code range are exactly the id diagnostics, in ascending position) is decidable and evaluated on every case",
+            "a code is 'explicit' when the tree's transact_code is present; a literal that does not fit u32 is an Error of its own and counts as absent, as in the code",
+        ],
+        "level_text": "Theorems (all method lists of any length, any names and codes): the single-pass bookkeeping of check_methods, started from the abstraction of ANY prefix, yields the abstraction of the longer prefix and exactly the declaratively specified reports (`step_spec`; invariant: names = first occurrences, first method with / without code, first method per code), hence for the whole list the reports (range, range pointed back to) equal `Spec.C09.spec` and the two `unwrap()`s never fail (`ids_spec`); `holds` lifts this to the sorted diagnostics of any validated file. Duplicate names are flagged against the FIRST occurrence and take no further part; 'mixed' is raised once, at the first method that makes the kept methods mixed.",
+        "level_note": "Trusted: Lean kernel (+ propext, Classical.choice, Quot.sound), the hand-written model of check_methods tied to the code by the correspondence run, the harness.",
+        "rule": "suite ids: exhaustive method sequences of length <= 3 (quick) / <= 5 (thorough) over 3 names x {no code, =1, =2, =01} with constants interleaved, plus random sequences of length 4-12 with large, overflowing and zero-padded codes; suite proj: random projects. distinct = distinct input digest; non-trivial = at least two methods",
+    },
     "C10": {
         "modules": ["AidlVerif.Props.C10"],
         "theorems": ["Aidl.Props.C10.flags", "Aidl.Props.C10.warningsAt_setUpOneway", "Aidl.Props.C10.errorsAt_returnDiags", "Aidl.Props.C10.holds"],
